@@ -9,6 +9,7 @@ import (
 	"fmt"
 	"io"
 	"math"
+	"os"
 	"path/filepath"
 	"slices"
 	"strings"
@@ -349,18 +350,17 @@ func tryGetRedumpKey(fsys afero.Fs, requestedPath string) ([]byte, error) {
 
 // openKeyFile opens key file, a directory of that name is not a key file.
 func openKeyFile(fsys afero.Fs, path string) (afero.File, error) {
-	f, err := fsys.Open(path)
+	f, stat, err := openNoWait(fsys, path, os.O_RDONLY, 0)
+	if errors.Is(err, syscall.EINVAL) {
+		return nil, afero.ErrFileNotFound // neither a named pipe is
+	}
 	if err != nil {
 		return nil, err
 	}
 
-	stat, err := f.Stat()
-	if err == nil && stat.IsDir() {
-		err = afero.ErrFileNotFound
-	}
-	if err != nil {
+	if stat.IsDir() {
 		_ = f.Close()
-		return nil, err
+		return nil, afero.ErrFileNotFound
 	}
 
 	return f, nil
